@@ -13,6 +13,9 @@ import (
 var longComp = strings.Repeat("L", 60) + "-" + strings.Repeat("n", 59)
 var nameUniverse = []string{"a", "ab", "a_", "a%", "a.b", "a b", "ä", "aä", ".h", "%", "_", "x.gz", "y.zst", "z.age", "w.pgp", longComp}
 
+// exotic components: characters that are special to tar, SQL, shells, globbing, Go path handling or terminals
+var exoticNames = []string{"...", "a\nb", "a\\b", "it's", "a*", "a?", "[a]", "a:b", "trail ", "dot.", "\U0001F600", "a\tb", "\"q\"", "-rf", "~", "a;b", "$x", "a=b", "#"}
+
 func hasCodecSuffix(n string) bool {
 	for _, s := range []string{".gz", ".lz4", ".zst", ".br", ".bz2", ".age", ".pgp"} {
 		if strings.HasSuffix(n, s) {
@@ -32,6 +35,7 @@ type GenOpts struct {
 	BiasMoves bool
 	Counts    bool // readdir with count limits (C13)
 	NoAttrs   bool
+	Exotic    bool // unusual names, path spellings, owners, timestamps, permission values, deeper trees
 }
 
 type Gen struct {
@@ -44,16 +48,30 @@ type Gen struct {
 func NewGen(r *rand.Rand, o GenOpts) *Gen {
 	if len(o.Comps) == 0 {
 		// a small per-history subset keeps collisions (reuse of names) frequent
-		idx := r.Perm(len(nameUniverse))
+		uni := nameUniverse
+		if o.Exotic {
+			uni = append(append([]string{}, nameUniverse...), exoticNames...)
+		}
+		idx := r.Perm(len(uni))
 		n := 4 + r.Intn(3)
 		for _, i := range idx[:n] {
-			o.Comps = append(o.Comps, nameUniverse[i])
+			o.Comps = append(o.Comps, uni[i])
 		}
 	}
 	if o.MaxLen == 0 {
 		o.MaxLen = 3*o.Cfg.RS*512 + 7
+		if o.MaxLen > 200000 {
+			o.MaxLen = 200000 // large record sizes are about position arithmetic, not about megabytes of content
+		}
 	}
 	return &Gen{r: r, o: o, used: map[string]bool{}}
+}
+
+func (g *Gen) maxDepth() int {
+	if g.o.Exotic {
+		return 8
+	}
+	return 4
 }
 
 func (g *Gen) plainCodec() bool { return g.o.Cfg.Comp == "" && g.o.Cfg.Enc == "" }
@@ -101,7 +119,7 @@ func (g *Gen) newPath(t Tree, forFile bool) string {
 	dirs := dirsOf(t)
 	var cands []string
 	for _, d := range dirs {
-		if depth(d) < 4 || d == "/" {
+		if depth(d) < g.maxDepth() || d == "/" {
 			cands = append(cands, d)
 		}
 	}
@@ -160,6 +178,9 @@ var perms = []uint32{0o777, 0o755, 0o700, 0o644, 0o600, 0o666, 0o750, 0o444}
 // Next generates the next op from the currently observed tree.
 func (g *Gen) Next(t Tree) Op {
 	op := g.next(t)
+	if g.o.Exotic {
+		g.exoticise(&op)
+	}
 	for _, p := range []string{op.A, op.B} {
 		if p != "" && p != "/" {
 			g.used[p] = true
@@ -169,6 +190,67 @@ func (g *Gen) Next(t Tree) Op {
 		g.used[m.A] = true
 	}
 	return op
+}
+
+var exoticIDs = []int{0, 1, 65535, 65536, 2097151, 2097152, 1<<31 - 1}
+var exoticTimes = []int64{1_600_000_000_123_456_789, 1_000_000_001, -1_000_000_000_000_000_000, 999_999_999, 7_000_000_000_000_000_000, 1_600_000_000_000_000_001, 4_102_444_800_000_000_000}
+var exoticPerms = []uint32{0, 0o001, 0o111, 0o400, 0o007}
+
+// exoticise replaces some generated values by unusual ones and picks an unusual (but equivalent) spelling for the paths.
+func (g *Gen) exoticise(op *Op) {
+	r := g.r
+	switch op.K {
+	case "chown":
+		if r.Intn(2) == 0 {
+			op.Uid, op.Gid = exoticIDs[r.Intn(len(exoticIDs))], exoticIDs[r.Intn(len(exoticIDs))]
+		}
+	case "chtimes":
+		if r.Intn(2) == 0 {
+			op.At, op.Mt = exoticTimes[r.Intn(len(exoticTimes))], exoticTimes[r.Intn(len(exoticTimes))]
+		}
+	case "chmod", "mkdir", "mkdirall":
+		if r.Intn(3) == 0 {
+			op.Perm = exoticPerms[r.Intn(len(exoticPerms))]
+		}
+	}
+	switch op.K {
+	case "mkdir", "mkdirall", "create", "write", "read", "remove", "removeall", "rename", "chmod", "chown", "chtimes", "stat", "list":
+		if r.Intn(4) == 0 {
+			op.Spell = 1 + r.Intn(6)
+		}
+	}
+}
+
+// spell returns an equivalent spelling of a clean absolute path.
+func spell(p string, how int) string {
+	if how == 0 || p == "" {
+		return p
+	}
+	rel := strings.TrimPrefix(p, "/")
+	switch how {
+	case 1:
+		if rel == "" {
+			return "."
+		}
+		return rel
+	case 2:
+		return "./" + rel
+	case 3:
+		if i := strings.Index(rel, "/"); i > 0 {
+			return "/" + rel[:i] + "//" + rel[i+1:]
+		}
+		return "//" + rel
+	case 4:
+		return "/./" + rel
+	case 5:
+		if rel == "" {
+			return "/"
+		}
+		return p + "/"
+	case 6:
+		return "/zz/../" + rel
+	}
+	return p
 }
 
 func (g *Gen) existing(t Tree) (string, bool) {
